@@ -228,10 +228,10 @@ def extend_schema(
     ]
 
     # Cast is safe as type defs will always lead to named types and not wrapped types
+    # All known types must be carried over (not only the extended ones),
+    # otherwise types which cannot be reached from the root types are lost.
     types = [
-        cast(NamedType, builder.extend_type(t))
-        for t in schema.types.values()
-        if t.name in type_exts
+        cast(NamedType, builder.extend_type(t)) for t in schema.types.values()
     ] + [
         cast(NamedType, builder.extend_type(builder.build_type(t)))
         for t in type_defs.values()
